@@ -1,18 +1,21 @@
 ---------------------------- MODULE MC_Endpoint ----------------------------
 (***************************************************************************)
-(* TLC model over Endpoint.tla: every sequence of peer packets (armed or   *)
-(* gated handlers) and handler completions within the bounds; the monitor  *)
-(* ProtoMon is composed over the emitted events (MonOk is the property on  *)
-(* the model); ExportSpec prints one replay line per explored transition.  *)
+(* TLC model over Endpoint.tla: every sequence of peer writes (one packet  *)
+(* or a burst of packets in one write; armed or gated handlers) and handler*)
+(* completions within the bounds; the monitor ProtoMon is composed over the*)
+(* emitted events (MonOk is the property on the model); ExportSpec prints  *)
+(* one replay line per explored transition.                                *)
 (***************************************************************************)
 EXTENDS Endpoint, Json
 
 CONSTANTS
   Ids,        \* packet ids the peer uses
   MaxPkts,    \* number of packets the peer sends
-  Kinds,      \* packet kinds offered: subset of {"pub0","pub1","pub2","pubrel","sub","unsub","ping"}
+  Kinds,      \* single packets offered: subset of {"pub0","pub1","pub2","pubrel","sub","unsub","ping", ...}
+  Extra,      \* further writes offered: a set of packet sequences (bursts, aliased publishes, big packets)
   Outcomes,   \* handler outcomes offered: subset of {"ok","err","nack"}
-  Imm         \* BOOLEAN: handlers may also complete inside the call (pre-armed)
+  Imm,        \* BOOLEAN: handlers may also complete inside the call (pre-armed)
+  Strict      \* > 0: the universe contains no protocol violation the monitor cannot classify (ProtoMon `strict`)
 
 Mon == INSTANCE ProtoMon
 
@@ -20,10 +23,15 @@ VARIABLES st, mon, hist, pred
 vars == <<st, mon, hist, pred>>
 view == <<st, mon>>
 
+Cfg(k, n) == E("cfg", k, 0, 0, 0, 0, n, "")
 InitMon == Mon!StepAll(Mon!Init,
             << E("reset", Role, 0, 0, Ver, 0, 0, Role),
-               IF Role = "server" THEN E("out", "CONNACK", 0, 0, 0, 0, 0, "")
-                                  ELSE E("connected", "", 0, 0, 0, 0, 0, "") >>)
+               Cfg("max_qos", MaxQos), Cfg("max_receive", IF Ver = 3 THEN MaxRecv ELSE 16),
+               Cfg("max_receive_size", MaxRecvSize), Cfg("strict", Strict) >>
+            \o (IF Ver = 5 /\ RecvMax > 0 THEN << Cfg(IF Role = "server" THEN "ack_receive_max" ELSE "client_receive_max", RecvMax) >> ELSE << >>)
+            \o (IF Ver = 5 THEN << Cfg(IF Role = "server" THEN "max_topic_alias" ELSE "client_topic_alias_max", AliasMax) >> ELSE << >>)
+            \o << IF Role = "server" THEN E("out", "CONNACK", 0, 0, 0, 0, 0, "")
+                                     ELSE E("connected", "", 0, 0, 0, 0, 0, "") >>)
 
 Init == st = Init0 /\ mon = InitMon /\ hist = << >> /\ pred = << >>
 
@@ -34,21 +42,30 @@ Take(s) == /\ st' = Next0(s)
            /\ pred' = Evs(s)
            /\ mon' = Mon!StepAll(mon, Observed(Evs(s)) \o << Quiet >>)
 
-In(kind, id, imm, o) ==
-  /\ st.alive /\ st.narr < MaxPkts /\ kind \in Kinds
-  /\ (kind = "pub0" => id = CHOOSE i \in Ids : TRUE)
-  /\ (kind \notin {"pub0", "pub1", "pub2"} => ~imm /\ o = "ok")
-  /\ Take(DoIn(st, kind, id, imm, o))
-  /\ hist' = Append(hist, "i" \o kind \o ":" \o ToString(id) \o ":" \o (IF imm THEN o ELSE "g"))
+Pub(q, id) == [kind |-> "pub", id |-> IF q = 0 THEN 0 ELSE id, q |-> q, topic |-> "t", alias |-> 0, plen |-> 1]
+Big(q, id) == [Pub(q, id) EXCEPT !.plen = 30]
+Long(q, id) == [Pub(q, id) EXCEPT !.topic = "long"]
+Ali(q, id, topic, a) == [Pub(q, id) EXCEPT !.topic = topic, !.alias = a]
+Ctl(kind, id) == [kind |-> kind, id |-> IF kind = "ping" THEN 0 ELSE id, q |-> 0, topic |-> "", alias |-> 0, plen |-> 0]
+Pk(k, i) == CASE k = "pub0" -> Pub(0, 0) [] k = "pub1" -> Pub(1, i) [] k = "pub2" -> Pub(2, i)
+              [] k = "big1" -> Big(1, i) [] k = "long1" -> Long(1, i)
+              [] OTHER -> Ctl(k, i)
+Writes == {<< Pk(k, i) >> : k \in Kinds, i \in Ids} \cup Extra
+
+In(pk, arm) ==
+  /\ st.alive /\ st.narr + Len(pk) <= MaxPkts
+  /\ \E ch \in {0, 1} : Take(DoIn(st, pk, arm, ch))
+  /\ hist' = Append(hist, [a |-> "in", pk |-> pk, arm |-> arm, h |-> 0, o |-> ""])
 
 Complete(gi, o) ==
   /\ st.alive /\ gi \in 1..Len(st.gates)
   /\ (st.gates[gi].kind # "pub" => o = "ok" \/ "err" \in Outcomes)
-  /\ Take(DoComplete(st, gi, o))
-  /\ hist' = Append(hist, "c" \o ToString(st.gates[gi].h) \o ":" \o o)
+  /\ \E ch \in {0, 1} : Take(DoComplete(st, gi, o, ch))
+  /\ hist' = Append(hist, [a |-> "c", pk |-> << >>, arm |-> << >>, h |-> st.gates[gi].h, o |-> o])
 
+Arms == {<< >>} \cup (IF Imm THEN {<< o >> : o \in Outcomes} ELSE {})
 Next ==
-  \/ \E kind \in Kinds, id \in Ids, imm \in (IF Imm THEN BOOLEAN ELSE {FALSE}), o \in Outcomes : In(kind, id, imm, o)
+  \/ \E pk \in Writes, arm \in Arms : In(pk, arm)
   \/ \E gi \in 1..Len(st.gates), o \in Outcomes : Complete(gi, o)
 
 Spec == Init /\ [][Next]_vars
@@ -59,8 +76,12 @@ TypeOk == QueueOk(st)
 ExportNext == mon.bad = "none" /\ Next /\ PrintT(<<"REPLAY", mon'.bad, ToJson(hist')>>)
 ExportSpec == Init /\ [][ExportNext]_vars
 
+----------------------------------------------------------------------------
+\* named universes for the configuration files
 Ids12 == {1, 2}
 Ids1 == {1}
+Ids123 == {1, 2, 3}
+KNone == {}
 KPub == {"pub0", "pub1", "pub2", "pubrel"}
 KPub12 == {"pub1", "pub2", "pubrel"}
 KAll == {"pub1", "pub2", "pubrel", "sub", "unsub", "ping"}
@@ -69,7 +90,16 @@ KPub01 == {"pub0", "pub1"}
 KPub1 == {"pub1"}
 KPub2 == {"pub2"}
 KIds == {"pub1", "pub2", "pubrel", "sub"}
+KLim == {"pub1", "pub0", "ping"}
+KLimBig == {"pub1", "big1", "long1", "ping"}
 OOk == {"ok"}
 OAll == {"ok", "err", "nack"}
 ONack == {"ok", "nack"}
+XNone == {}
+\* bursts: two or three publishes decoded from one read
+XBurst == { << Pub(1, 1), Pub(1, 2) >>, << Pub(1, 1), Pub(1, 2), Pub(1, 3) >>, << Pub(0, 0), Pub(1, 3) >>, << Big(1, 1), Pub(1, 2) >> }
+XBurstCtl == XBurst \cup { << Ctl("ping", 0), Pub(1, 1) >>, << Pub(1, 1), Ctl("ping", 0), Pub(1, 2) >> }
+\* aliased publishes: topics a / b / none x aliases none / 1 / 2 / 3 (AliasMax = 2)
+XAlias == { << Ali(q, 1, t, a) >> : q \in {0}, t \in {"a", "b", ""}, a \in 0..3 } \ { << Ali(0, 1, "", 0) >> }
+XAliasQ1 == XAlias \cup { << Ali(1, i, t, a) >> : i \in {1, 2}, t \in {"a", ""}, a \in {1, 3} }
 =============================================================================
